@@ -12,7 +12,7 @@ ASSUMPTIONS = ["the bound on buffered unparsed input is a property of bufio's fi
                "it is not observed on the implementation"]
 RULE = ("conv probe, no scripted backend panics: (a) command lines of length limit-2..limit+3 for limits {40,64,2000} at first/"
         "middle/last position, each whole, split in two at every 8th offset, and byte-wise; the over-long line is a MAIL whose address "
-        "contains 'long' so that any execution of it or of a prefix is visible; (b) endless LF-free input; (c) every string up to "
+        "contains 'long' so that any execution of it or of a prefix is visible; (a') the same over-long lines after histories that touch the limiter: between BDAT chunks, after a refused / last chunk, after DATA, after RSET inside a chunked transfer, and as the answer to a SASL challenge arriving in two segments; (b) endless LF-free input; (c) every string up to "
         "length 4 (thorough 5) over {NUL, CR, LF, SP, 'A', ':', 0xFF} as a command line; (c') every string up to length 3 (thorough 4) over {double quote, backslash, '<', '>', '@', 'a', SP, ':', '=', '+', '.'} as the argument of MAIL FROM:, RCPT TO:, AUTH= , ORCPT= and AUTH; (d) seeded random binary segments; (e) mixes of valid "
         "and invalid commands around the error threshold; (f) random walks without panic letters. non-trivial = the conversation "
         "contains an invalid, over-long or binary line; distinct = distinct case line")
@@ -20,7 +20,13 @@ THEOREMS = ["C19_short_lines_ok", "C19_long_line_trips", "C19_long_line_refused"
 signature = cc.signature
 mutate = cc.mutate
 shrink = P.shrink_resegment
-KNOWN = {}
+def known_sharedseg(case, impl, reason):
+    """a command line whose first octets arrive in the same network segment as the end of a BDAT payload is length-checked
+    only from the next segment on (the limiter sits below bufio and is off while the payload is read)"""
+    return case.endswith("TAG=cmdonly-sharedseg") and reason.count("C19") == 1 and "over-long line was not answered 500" in reason
+
+
+KNOWN = {"limiter_exempts_line_prefix_read_with_payload": known_sharedseg}
 
 
 def nontrivial(case, ans):
@@ -63,6 +69,48 @@ def groups(tier, rng):
                     f = c.case(seg="one").split("\t")
                     f[3] = hx(data[:cut]) + "," + hx(data[cut:]) + ";eof"
                     lines.append("\t".join(f) + "\tTAG=cmdonly")
+    # histories: the limit must be in force wherever a command line is read — between BDAT chunks, after a refused
+    # chunk, after DATA, after RSET, inside an AUTH exchange (the SASL response is a line like any other)
+    import base64
+    hist = []
+    for lim in (64, 2000):
+        for extra in (2, 3, 40, 3 * lim):
+            def long_noop(n):
+                return b"NOOP" + b" " * (n - 6) + b"\r\n"
+            n = lim + extra
+            pre_sets = {
+                "between-chunks": (dict(maxline=lim), [b"EHLO x\r\n", b"MAIL FROM:<s@x>\r\n", b"RCPT TO:<r@x>\r\n", (b"BDAT 3\r\nab\n", dict(DATA=g.ddec()))]),
+                "after-refused-chunk": (dict(maxline=lim, maxmsg=10), [b"EHLO x\r\n", b"MAIL FROM:<s@x>\r\n", b"RCPT TO:<r@x>\r\n", (b"BDAT 3\r\nab\n", dict(DATA=g.ddec(ret="prop"))),
+                                                                  b"BDAT 20\r\n" + b"0123456789\n" * 1 + b"012345678\n"]),
+                "after-last-chunk": (dict(maxline=lim), [b"EHLO x\r\n", b"MAIL FROM:<s@x>\r\n", b"RCPT TO:<r@x>\r\n", (b"BDAT 3 LAST\r\nab\n", dict(DATA=g.ddec()))]),
+                "after-data": (dict(maxline=lim), [b"EHLO x\r\n", b"MAIL FROM:<s@x>\r\n", b"RCPT TO:<r@x>\r\n", b"DATA\r\n", (b"hi\r\n.\r\n", dict(DATA=g.ddec()))]),
+                "after-rset-in-bdat": (dict(maxline=lim), [b"EHLO x\r\n", b"MAIL FROM:<s@x>\r\n", b"RCPT TO:<r@x>\r\n", (b"BDAT 3\r\nab\n", dict(DATA=g.ddec(ret="prop"))), b"RSET\r\n"]),
+            }
+            for name, (cfgd, pre) in pre_sets.items():
+                c = g.Conv(cfgd)
+                for p_ in pre:
+                    if isinstance(p_, tuple):
+                        c.add(p_[0], **p_[1])
+                    else:
+                        c.add(p_, **({"NS": "ok"} if p_.startswith(b"EHLO") else {"MAIL": "ok"} if p_.startswith(b"MAIL") else {"RCPT": "ok"} if p_.startswith(b"RCPT") else {}))
+                c.add(long_noop(n)); c.add(b"NOOP\r\n")
+                for seg in ("line", "one", "rand"):
+                    # random segmentation can put the first octets of the long line into the segment that carries the end
+                    # of a chunk's payload: those octets are read while the limit is lifted (known finding, see KNOWN)
+                    shared = seg == "rand" and ("chunk" in name or "bdat" in name)
+                    hist.append(c.case(seg=seg, rng=rng) + ("\tTAG=cmdonly-sharedseg" if shared else "\tTAG=cmdonly"))
+            # the over-long line is the answer to a 334 challenge; it arrives in two segments, the first within the limit
+            resp = base64.b64encode(b"long" + b"x" * n)[:n - 2] + b"\r\n"
+            c = g.Conv(dict(maxline=lim, insecure=1, authsess=1, mechs=hx(b"LOGIN")))
+            c.add(b"EHLO x\r\n", NS="ok"); c.add(b"AUTH LOGIN\r\n", AUTH="ok", SASL=[hx(b"User:") + "!0!ok", "-!1!ok"])
+            c.add(resp); c.add(b"NOOP\r\n")
+            base = c.case(seg="line").split("\t")
+            data = b"".join(c.lines)
+            off = len(b"EHLO x\r\nAUTH LOGIN\r\n")
+            for cut in sorted({off + 8, off + lim // 2, off + lim - 2, off + lim}):
+                f = list(base); f[3] = hx(data[:off]) + "," + hx(data[off:cut]) + "," + hx(data[cut:]) + ";eof"
+                hist.append("\t".join(f) + "\tTAG=cmdonly")
+            hist.append(c.case(seg="one") + "\tTAG=cmdonly")
     for lim in (40, 2000):
         for total in (lim * 3, 9000):
             c = g.Conv(dict(maxline=lim))
@@ -112,7 +160,7 @@ def groups(tier, rng):
         names = [n for n in g.random_walk(cfg, rng, rng.randrange(3, 25)) if "panic" not in n and "lmtpstatus" not in n]
         walks.append(g.build(cfg, names, rng).case(seg=rng.choice(["one", "line", "byte", "rand"]), rng=rng))
     mk = lambda name, cs: Group("conv/" + name, cs, project=project, theorems=THEOREMS)
-    return [mk("line-lengths", lines), mk("endless", endless), mk("short-strings", short), mk("argument-syntax", args), mk("random-binary", binary),
+    return [mk("line-lengths", lines), mk("limit-histories", hist), mk("endless", endless), mk("short-strings", short), mk("argument-syntax", args), mk("random-binary", binary),
             mk("error-threshold", thresh), mk("walks-no-panic", walks)]
 
 
